@@ -1,4 +1,60 @@
-(* placeholder until the composition theorems are in place *)
-From GT Require Import Validate.
-Example C17_pending_c17 : True. Proof. exact I. Qed.
-Print Assumptions C17_pending_c17.
+(* C17 — "the transformer rewrites exactly what its hooks replace and keeps the rest".
+   Model: theories/Transformer.v ([transform_document H d st], mirror of
+   src/ast/operation_transformer.rs, for a record [H] of hooks: [pre H] logs a hook call,
+   [rw_X H] decides whether hook X replaces the node it is handed).
+   Specification: spec/SpecTransform.v ([smap_document], [hook_calls], [rewrites_somewhere],
+   [no_rewrites], [thread], [patched]) — no Keep / Replace bookkeeping, no state threading. *)
+From GT Require Import Transformer.
+From GTS Require Import SpecTransform.
+From GTP Require Import C17_proofs.
+
+(* The document that comes out (the replacement if there is one, else the input) is the eager
+   bottom-up structural map: every node rebuilt from its mapped children — lists element-wise,
+   order and length preserved, everything else copied — and then rewritten by its own hook
+   where that hook replaces it. *)
+Theorem C17_result :
+  forall St (H : hooks St) d st,
+    replace_or d (snd (transform_document H d st)) = smap_document H d.
+Proof. exact transform_result. Qed.
+Print Assumptions C17_result.
+
+(* Every hook is invoked exactly once per corresponding node of the ORIGINAL document, in
+   pre-order with the code's child order: the final state is the fold of [pre H] over
+   [hook_calls d]. *)
+Theorem C17_calls :
+  forall St (H : hooks St) d st,
+    fst (transform_document H d st) = fold_left (pre H) (hook_calls d) st.
+Proof. exact transform_calls. Qed.
+Print Assumptions C17_calls.
+
+(* With nothing overridden (no hook ever replaces a node) the document is unchanged. *)
+Theorem C17_identity :
+  forall St (H : hooks St) d st,
+    no_rewrites H -> replace_or d (snd (transform_document H d st)) = d.
+Proof. exact transform_identity. Qed.
+Print Assumptions C17_identity.
+
+(* Keep is only reported when nothing was rewritten anywhere: no hook replaced the node it was
+   handed, and the document has no fragment spread (which the default method always rebuilds). *)
+Theorem C17_keep :
+  forall St (H : hooks St) d st,
+    snd (transform_document H d st) = Keep -> rewrites_somewhere H d = false.
+Proof. exact transform_keep. Qed.
+Print Assumptions C17_keep.
+
+(* transform_list, for an arbitrary item transformer [f]: the items are processed left to right
+   with the state threaded through ([thread f l st] = final state and the per-item results
+   [rs]); the result is Keep iff every item's result is Keep, and otherwise the Replace of the
+   list whose i-th item is [replace_or x_i r_i] — same length, same order. *)
+Theorem C17_transform_list :
+  forall St A (f : A -> St -> St * tr A) (l : list A) (st : St),
+    let rs := snd (thread f l st) in
+    List.length rs = List.length l /\
+    fst (transform_list f l st) = fst (thread f l st) /\
+    (snd (transform_list f l st) = Keep <-> Forall (fun r => r = Keep) rs) /\
+    (snd (transform_list f l st) <> Keep -> snd (transform_list f l st) = Replace (patched l rs)) /\
+    List.length (patched l rs) = List.length l /\
+    (forall i x, nth_error l i = Some x ->
+       exists rx, nth_error rs i = Some rx /\ nth_error (patched l rs) i = Some (replace_or x rx)).
+Proof. exact transform_list_spec. Qed.
+Print Assumptions C17_transform_list.
